@@ -176,7 +176,33 @@ def c1 = h(g3); def c2 = h(g1);
     return text, [v["g1"] + 1, v["g2"] + 1, v["g0"], v["g3"], v["g1"]]
 
 
-SCOPE = [prog_shadow, prog_counter, prog_curry, prog_recursion, prog_assign_capture, prog_params]
+def prog_late_def(v):
+    """the same identifier occurrence resolves further in / out on later evaluations"""
+    text = """
+def v = g0;
+def outer() do
+  def get = fn() v;
+  def r1 = get();
+  if d1 == 1 then do def v = g1 end;
+  def r2 = get();
+  [r1, r2, get()]
+end;
+def mk(s) do if s == 1 then do def x = g2 end; fn() x end;
+def x = g3;
+def fa = mk(d2); def fb = mk(1 - d2);
+def res = outer();
+def rec(n) do if n == as1 then do def w = a1 end; def r = if n > 0 then rec(n - 1) else []; r + [w] end;
+def w = a2;
+[res, fa(), fb(), fa(), rec(1), v, x]
+"""
+    r2 = v["g1"] if v["d1"] == 1 else v["g0"]
+    xa = v["g2"] if v["d2"] == 1 else v["g3"]
+    xb = v["g3"] if v["d2"] == 1 else v["g2"]
+    rec = [v["a1"] if v["as1"] == 0 else v["a2"], v["a1"] if v["as1"] == 1 else v["a2"]]
+    return text, [[v["g0"], r2, r2], xa, xb, xa, rec, v["g0"], v["g3"]]
+
+
+SCOPE = [prog_late_def, prog_shadow, prog_counter, prog_curry, prog_recursion, prog_assign_capture, prog_params]
 
 # ---- call forms ------------------------------------------------------------------------------------
 DEF = "def f(a, b = a + 10, c = 7, rest...) [a, b, c, rest...]; "
